@@ -170,6 +170,43 @@ func Check(prop, tier string) int {
 			defer os.RemoveAll(dir)
 			return sres{c, e.RunShowCase(c, dir)}
 		})
+		// differential check-vs-gen agreement on generated modules with seeded defects
+		na := 60
+		if tier == "thorough" {
+			na = 900
+		}
+		na = common.CasesOverride(na)
+		type ares struct {
+			c   *AgreeCase
+			out *Outcome
+		}
+		aresults := common.ParallelMap(na, common.Workers(), func(i int) ares {
+			if deadline.Passed() {
+				return ares{}
+			}
+			c := GenAgreeCase(common.Rng(seed^0xa61ee, i))
+			dir := filepath.Join(scratch, fmt.Sprintf("a%d", i))
+			os.MkdirAll(dir, 0777)
+			defer os.RemoveAll(dir)
+			return ares{c, e.RunAgreeCase(c, dir)}
+		})
+		for i, r := range aresults {
+			if r.c == nil {
+				continue
+			}
+			if r.out.Infra != "" {
+				writeEvidence(e, prop, tier, seed, start, ran, steps, samples, 0, "infrastructure trouble: "+r.out.Infra)
+				common.Infra("agreement case %d: %s", i, r.out.Infra)
+			}
+			ran++
+			steps += r.out.Steps
+			if i == 1 {
+				samples = append(samples, map[string]interface{}{"check_vs_gen_case": i, "mutation": r.c.Mutation, "types": len(r.c.Module.Types), "injectors": len(r.c.Module.Injectors), "log": r.out.Log})
+			}
+			for _, v := range r.out.Verdicts {
+				found = append(found, common.Found{Verdict: v, Index: 200000 + i, Case: r.c, Trace: r.out.Log})
+			}
+		}
 		for i, r := range sresults {
 			if r.c == nil {
 				continue
@@ -215,6 +252,19 @@ func Check(prop, tier string) int {
 			continue
 		}
 		seen[k] = true
+		if ac, ok := f.Case.(*AgreeCase); ok {
+			if common.KnownOpen(findings, prop, k) == nil {
+				dir, _ := os.MkdirTemp(scratch, "agreerep-")
+				o := e.RunAgreeCase(ac, dir)
+				os.RemoveAll(dir)
+				if hasKey(o.Verdicts, prop, k) == nil {
+					writeEvidence(e, prop, tier, seed, start, ran, steps, samples, 0, "a violation did not reproduce")
+					common.Infra("agreement violation %s did not reproduce when re-run: harness nondeterminism", k)
+				}
+			}
+			reps = append(reps, f)
+			continue
+		}
 		if sc, ok := f.Case.(*ShowCase); ok {
 			if common.KnownOpen(findings, prop, k) == nil {
 				dir, _ := os.MkdirTemp(scratch, "showrep-")
@@ -308,11 +358,15 @@ func Replay(r *common.Replay) int {
 	os.MkdirAll(dir, 0777)
 	var out *Outcome
 	if len(c.Pkgs) == 0 {
+		var ac AgreeCase
 		var sc ShowCase
-		if err := json.Unmarshal(r.Case, &sc); err != nil || sc.Module == nil {
-			common.Infra("replay: not a history and not a show-model case")
+		if err := json.Unmarshal(r.Case, &ac); err == nil && ac.Module != nil && ac.Agree {
+			out = e.RunAgreeCase(&ac, dir)
+		} else if err := json.Unmarshal(r.Case, &sc); err == nil && sc.Module != nil {
+			out = e.RunShowCase(&sc, dir)
+		} else {
+			common.Infra("replay: not a history, not a show-model case, not an agreement case")
 		}
-		out = e.RunShowCase(&sc, dir)
 	} else {
 		out = e.RunCase(&c, dir)
 	}
